@@ -96,6 +96,22 @@ def a_batch_create_destroy(w, h):
         h.dead.append(uid)
 
 
+def a_batch_create_then_fail(w, h):
+    """A creating item reported successful, followed by a failing item in the same batch: the
+    identifier was handed out, the object exists."""
+    r = w.do((1, 2), [W.p_create(W.sym_attrs(masks=MASKS)), W.p_get('424242')], user='bob')
+    _new(h, r, 'bob', 'default', 'sym', 0)
+
+
+def a_batch_register_fail_create(w, h):
+    r = w.do((1, 4), [W.p_register(W.pie_secret()), W.p_activate('424242'),
+                      W.p_create(W.sym_attrs(masks=MASKS))],
+             error_option=E.BatchErrorContinuationOption.CONTINUE)
+    _new(h, r, 'alice', 'default', 'secret', 0)
+    if len(r.items) > 2:
+        _new(h, r, 'alice', 'default', 'sym', 2)
+
+
 def a_destroy_newest_owner(w, h):
     u = _newest(h)
     if u:
@@ -141,6 +157,8 @@ ACTIONS = {
     'create_a': a_create_a, 'create_b_open': a_create_b_open,
     'register_secret_a': a_register_secret_a, 'keypair_a': a_keypair_a, 'derive_a': a_derive_a,
     'batch_create_destroy_b': a_batch_create_destroy,
+    'batch_create_then_fail_b': a_batch_create_then_fail,
+    'batch_register_fail_create_a': a_batch_register_fail_create,
     'destroy_newest_owner': a_destroy_newest_owner, 'destroy_oldest_owner': a_destroy_oldest_owner,
     'destroy_newest_other': a_destroy_newest_other,
     'activate_compromise_destroy': a_activate_compromise_destroy,
